@@ -155,6 +155,9 @@ class Dataset:
         if len(nb_occur_elements_in_rankings) == 0:
             raise EmptyDatasetException("No elements found in input rankings")
 
+        # the mappings element <-> id are rebuilt from scratch: the rankings may have been modified
+        self._mapping_element_id.clear()
+        self._mapping_id_element.clear()
         id_element: int = 0
         for key, _ in nb_occur_elements_in_rankings.items():
             self._mapping_element_id[key] = id_element
@@ -235,10 +238,8 @@ class Dataset:
                     new_ranking.append(new_bucket)
             if len(new_ranking) > 0:
                 new_rankings.append(Ranking(new_ranking))
-        # the mapping element / id must be updated by removing the elements that should be removed
-        for element_to_remove in elements_to_remove:
-            self._mapping_element_id.pop(element_to_remove)
-        # the features of the dataset must be re-computed after removing some elements
+        # the features of the dataset (including the mappings element <-> id) must be re-computed after removing
+        # some elements
         self._rankings, self._is_complete, self._without_ties = self._analyse_rankings(new_rankings)
 
     @staticmethod
